@@ -22,3 +22,15 @@ AEV=$(grep -A1 'name = "async-event"' /repo/Cargo.lock | grep version | sed 's/.
 AESRC=$(ls -d $HOME/.cargo/registry/src/*/async-event-$AEV/src 2>/dev/null | head -1)
 mkdir -p $DST/async_event
 if [ -n "$AESRC" ]; then sync_one $AESRC/lib.rs $DST/async_event/mod.rs; fi
+
+# diatomic-waker (external crate used by channel.rs for the receiver): the version pinned by /repo/Cargo.lock, from the cargo
+# registry; the only rewrite is the crate-root path (crate:: -> crate::diatomic::), needed because it becomes a module here
+DWV=$(grep -A1 'name = "diatomic-waker"' /repo/Cargo.lock | grep version | sed 's/.*"\(.*\)"/\1/')
+DWSRC=$(ls -d $HOME/.cargo/registry/src/*/diatomic-waker-$DWV/src 2>/dev/null | head -1)
+mkdir -p $DST/diatomic
+if [ -n "$DWSRC" ]; then
+  for f in waker.rs borrowed_waker.rs arc_waker.rs; do
+    sed -e 's/crate::/crate::diatomic::/g' $DWSRC/$f > /tmp/dw_$f.tmp
+    sync_one /tmp/dw_$f.tmp $DST/diatomic/$f; rm -f /tmp/dw_$f.tmp
+  done
+fi
